@@ -27,6 +27,9 @@ pub enum Input {
 	Bytes(Vec<u8>),
 	/// `depth` nested levels of a recursive schema, generated at execution time (compact)
 	Deep { kind: DeepKind, depth: u32, terminated: bool },
+	/// a LONG stream of `n` valid datums (`val::gen_long_vals`) decoded one after the other through ONE deserializer
+	/// state, under limits that every single datum just fits (generated at execution time)
+	Stream { seed: u64, n: u32, pattern: u8 },
 }
 
 #[derive(Clone, Debug, Serialize, Deserialize, PartialEq)]
@@ -148,6 +151,104 @@ const HOSTILE: [i64; 12] = [-1, i64::MIN, i64::MAX, 1 << 62, 1 << 31, (1 << 31) 
 /// boolean through is the implementation's business, the property only says what must be REFUSED.
 const SCALAR_FIELD_MAX: usize = 32;
 
+impl C04 {
+	/// Many valid datums through ONE deserializer state. The limits are set to what the most demanding single datum
+	/// needs (the property's limits are per datum: nesting, sequence length, field size), so budgets, totals or
+	/// buffers that are carried from one datum to the next instead of starting afresh show as a refusal, a panic or
+	/// memory that grows with the number of datums.
+	fn exec_stream(&self, scn: &Scn, env: &Env, schema: &serde_avro_fast::Schema, seed: u64, n: u32, pattern: u8, out: &mut Outcome) {
+		out.count("long_stream_of_datums", 1);
+		let vals = val::gen_long_vals(seed, env, &scn.schema, n, pattern);
+		let mut bytes = vec![];
+		let mut largest_datum = 0;
+		for v in &vals {
+			let (b, _) = ref_datum::encode(env, &scn.schema, v, Layout::default()).expect("HARNESS: reference encoder rejected a generated value");
+			largest_datum = largest_datum.max(b.len());
+			bytes.extend_from_slice(&b);
+		}
+		let d = vals.iter().map(val_depth).max().unwrap_or(0);
+		let s = vals.iter().map(max_seq).max().unwrap_or(0);
+		let f = vals.iter().map(max_field_len).max().unwrap_or(0);
+		// tight, but inside the region where the oracle of the single-datum scenarios demands Ok
+		let limits = Limits { allowed_depth: 2 * d + 2, max_seq_size: s, max_alloc_size: f.max(SCALAR_FIELD_MAX) };
+		let guard = simalloc::MeasureGuard::start();
+		let (r, stats) = match &scn.path {
+			Path::Slice => (world::decode_stream_slice(schema, env, &scn.schema, &bytes, n as usize, scn.target, limits), None),
+			Path::Reader(kind) => {
+				let (r, st) = world::decode_stream_reader(schema, env, &scn.schema, &bytes, n as usize, scn.target, limits, kind);
+				(r, Some(st))
+			}
+		};
+		let st = guard.stats();
+		drop(guard);
+		out.evals = 1;
+		let path_label = if scn.path == Path::Slice { "slice" } else { "reader" };
+		let mut digest = Fnv::new();
+		digest.u64(r.items.len() as u64).u64(r.consumed as u64).u64(stats.as_ref().map_or(0, |s| s.digest));
+		out.digest = digest.get();
+		let mut sig = Fnv::new();
+		sig.str("c04-stream").str(path_label).str(scn.target.label()).u64(pattern as u64).u64((n / 256) as u64);
+		out.sig(sig);
+		if let Some(p) = &r.panicked {
+			out.fail(format!("panic:{}", crate::runner::panic_site(p)), format!("long stream, {path_label} path, after {} of {n} datums: {p}", r.items.len()));
+			return;
+		}
+		if let Some(s) = &stats {
+			out.steps = s.calls;
+			if s.budget_exhausted {
+				out.fail("C04:endless-loop-on-source", format!("source step budget exhausted ({} calls for {} bytes, {n} datums)", s.calls, bytes.len()));
+				return;
+			}
+			if !s.contract_violations.is_empty() {
+				out.fail("C04:bufread-contract", s.contract_violations[0].clone());
+				return;
+			}
+		}
+		if let Some((i, Err(e))) = r.items.iter().enumerate().find(|(_, x)| x.is_err()) {
+			out.fail(
+				format!("C04:valid-input-within-limits-rejected:long-stream:{path_label}"),
+				format!("datum #{i} of {n} refused under limits {limits:?} that every single datum fits (deepest {d}, longest sequence {s}, largest field {f}): {e}"),
+			);
+			return;
+		}
+		if matches!(scn.target, Target::Capture { enum_as_u64: false, duration_as_bytes: false }) {
+			if let Some(i) = r.items.iter().zip(&vals).position(|(a, b)| a.as_ref().ok() != Some(b)) {
+				out.fail("C04:valid-input-within-limits-decodes-to-another-value", format!("long stream, datum #{i} of {n}: {:?} vs {:?}", r.items[i], vals[i]));
+				return;
+			}
+		}
+		if r.items.len() != n as usize || r.consumed != bytes.len() {
+			out.fail(format!("C04:valid-input:long-stream-stops-at-the-wrong-place:{path_label}"), format!("{} of {n} datums, {} of {} bytes", r.items.len(), r.consumed, bytes.len()));
+			return;
+		}
+		// memory: with the allocation-free target everything the monitor sees is the crate's own. It may depend on the
+		// largest datum and the cap, not on how many datums went through.
+		if matches!(scn.target, Target::Hash) {
+			match &scn.path {
+				Path::Slice => {
+					if st.allocs != 0 {
+						out.fail("C04:slice-path-allocates-on-success", format!("{} allocations over {n} datums, largest {} bytes", st.allocs, st.largest));
+						return;
+					}
+					out.count("slice_success_zero_alloc_confirmed", 1);
+				}
+				Path::Reader(kind) => {
+					let bufreader = if let ReaderKind::BufReader { cap, .. } = kind { *cap } else { 0 };
+					let bound = 2 * limits.max_alloc_size as i64 + 4 * largest_datum as i64 + (256 << 10) + bufreader as i64;
+					if st.peak_live > bound {
+						out.fail(
+							"C04:reader-path-memory-grows-with-the-number-of-datums",
+							format!("peak {} bytes live over {n} datums (largest datum {largest_datum} bytes, largest field {f}, max_alloc_size {})", st.peak_live, limits.max_alloc_size),
+						);
+						return;
+					}
+				}
+			}
+		}
+		out.count("decode_ok", 1);
+	}
+}
+
 impl Prop for C04 {
 	type Scn = Scn;
 	fn id(&self) -> &'static str {
@@ -210,6 +311,34 @@ impl Prop for C04 {
 			6 => Target::Masked(rng.next_u64()),
 			_ => Target::Blind,
 		};
+		// LONG streams of valid datums through one deserializer state, under limits each datum just fits
+		if run % 512 == 77 {
+			let schema = match rng.below(8) {
+				0 => Ty::String,
+				1 => Ty::Array(Box::new(Ty::String)),
+				2 => Ty::Record { name: 0, fields: vec![(0, Ty::Array(Box::new(Ty::Int))), (1, Ty::Bytes)] },
+				3 => Ty::Map(Box::new(Ty::Union(vec![Ty::Null, Ty::String]))),
+				4 => Ty::Record { name: 0, fields: vec![(0, Ty::Int), (1, Ty::Union(vec![Ty::Null, Ty::Ref(0)]))] },
+				5 => Ty::Bytes,
+				_ => {
+					let mut cfg = GenCfg::default_swarm(rng);
+					cfg.recursion = rng.chance(1, 2);
+					ast::gen_schema(rng, cfg)
+				}
+			};
+			let pattern = rng.below(7) as u8;
+			let n = (250 + rng.below(900) as u32).min(if matches!(pattern, 2 | 3 | 6) { 600 } else { 2000 });
+			return Scn {
+				schema,
+				input: Input::Stream { seed: rng.next_u64(), n, pattern },
+				gen_kind: "long-stream".into(),
+				valid_of: None,
+				positive_counts_only: true,
+				limits,
+				target: if rng.chance(2, 3) { Target::capture() } else { Target::Hash },
+				path,
+			};
+		}
 		// nesting streams
 		if run % 16 == 5 {
 			let kind = *rng.pick(&[DeepKind::RecordUnion, DeepKind::RecordArray, DeepKind::RecordMap]);
@@ -323,8 +452,13 @@ impl Prop for C04 {
 				return out;
 			}
 		};
+		if let Input::Stream { seed, n, pattern } = &scn.input {
+			self.exec_stream(scn, &env, &schema, *seed, *n, *pattern, &mut out);
+			return out;
+		}
 		let owned;
 		let bytes: &[u8] = match &scn.input {
+			Input::Stream { .. } => unreachable!(),
 			Input::Bytes(b) => b,
 			Input::Deep { kind, depth, terminated } => {
 				owned = deep_bytes(*kind, *depth, *terminated);
@@ -549,6 +683,15 @@ impl Prop for C04 {
 				for cut in [b.len() / 2, b.len() - 1] {
 					let mut s = scn.clone();
 					s.input = Input::Bytes(b[..cut].to_vec());
+					c.push(s);
+				}
+			}
+		}
+		if let Input::Stream { seed, n, pattern } = &scn.input {
+			for nn in [n / 2, n - n / 8 - 1, n - 1] {
+				if nn > 0 && nn < *n {
+					let mut s = scn.clone();
+					s.input = Input::Stream { seed: *seed, n: nn, pattern: *pattern };
 					c.push(s);
 				}
 			}
